@@ -74,6 +74,10 @@ def make_layouts(rng, n_eng, n_lines, same=False):
             else:
                 text = ''.join(rng.choice(chars) for _ in range(rng.randrange(1, 5)))
             T = rng.randrange(max(1, 2 * len(text)), 2 * len(text) + 6)
+            if text and rng.random() < 0.3:
+                # a tightly sampled line: barely more frames than characters (plus the blanks between doubled letters)
+                need_t = len(text) + sum(1 for a, b in zip(text, text[1:]) if a == b)
+                T = need_t + rng.randrange(1, 3)
             L = np.array([[rng.uniform(-4, 1) for _ in range(C)] for _ in range(T)])
             peak = rng.choice([0.5, 3, 8])
             pos = sorted(rng.sample(range(T), min(T, len(text))))
@@ -143,10 +147,15 @@ def ref_confidences(line):
     T, C = probs.shape
     if T == len(labels):
         return np.array([probs[i, l] for i, l in enumerate(labels)])
+    need = len(labels) + sum(1 for a, b in zip(labels, labels[1:]) if a == b)
     try:
         # the minimum-cost alignment (C05), then for every character the FIRST of its frames in which the network is most confident
         seq = [int(x) for x in force_align(-lp, list(labels), C - 1, return_seq_positions=True)]
     except ValueError:
+        if T >= need and (C - 1) not in labels and np.all(np.isfinite(lp)):
+            # enough frames for the labels plus a blank between adjacent repeats, all costs finite: an alignment exists (C05), the 0.5
+            # fallback is not justified - report with a value no engine can produce
+            return np.ones(len(labels)) * -1.0
         return np.ones(len(labels)) * 0.5
     best = lp.max(axis=1)
     al = []
